@@ -558,6 +558,7 @@ func c07Run(input string) string {
 	default:
 		fetcher = verifiable.SingleKey(pub, keyType)
 	}
+	view := ""
 	verify := func(doc []byte, strict bool) string {
 		opts := []verifiable.CredentialOpt{verifiable.WithJSONLDDocumentLoader(e.loader), verifiable.WithPublicKeyFetcher(fetcher),
 			verifiable.WithEmbeddedSignatureSuites(verifySuite)}
@@ -574,21 +575,55 @@ func c07Run(input string) string {
 		if len(v.Proofs) == 0 && v.JWT == "" {
 			return "noproof"
 		}
+		issued := ""
+		if v.Issued != nil {
+			issued = v.Issued.FormatToString()
+		}
+		view = fmt.Sprintf("%s %s %s %v", v.ID, v.Issuer.ID, issued, v.Types)
 		return "acc"
 	}
 	base := verify(signed, false)
+	baseView := view
 	var m map[string]interface{}
 	if err := json.Unmarshal(signed, &m); err != nil {
 		return "sign=err decode"
 	}
 	applied := c07Mutate(m, mut)
 	mutated, _ := json.Marshal(m)
-	res, strict := verify(mutated, false), verify(mutated, true)
+	extra := ""
+	if strings.HasPrefix(mut, "addcase:") {
+		// a member that differs from a signed member only by case, carrying another value, placed LAST: JSON-LD does not know
+		// the term, encoding/json would decode it INTO the known member of the Go value (the last match wins)
+		member := map[string]string{
+			"Issuer": `"Issuer":"did:example:another-issuer"`, "ID": `"ID":"http://example.edu/credentials/another-id"`,
+			"Id": `"Id":"http://example.edu/credentials/another-id"`, "IssuanceDate": `"IssuanceDate":"2031-01-01T19:23:24Z"`,
+			"Type": `"Type":["VerifiableCredential","AnotherCredential"]`,
+		}[strings.TrimPrefix(mut, "addcase:")]
+		if member == "" {
+			return "bad-input"
+		}
+		applied = true
+		mutated = append(append(append([]byte{}, mutated[:len(mutated)-1]...), ',') , []byte(member+"}")...)
+	}
+	view = ""
+	res := verify(mutated, false)
+	if strings.HasPrefix(mut, "addcase:") {
+		// what the accepted credential reports for its signed members
+		switch {
+		case res != "acc":
+			extra = " view=-"
+		case view == baseView:
+			extra = " view=same"
+		default:
+			extra = " view=changed"
+		}
+	}
+	strict := verify(mutated, true)
 	ap := "1"
 	if !applied {
 		ap = "0"
 	}
-	return fmt.Sprintf("sign=ok base=%s res=%s strict=%s applied=%s|%s|%s", base, res, strict, ap,
+	return fmt.Sprintf("sign=ok base=%s res=%s strict=%s applied=%s%s|%s|%s", base, res, strict, ap, extra,
 		strings.ReplaceAll(string(signed), "|", "/"), strings.ReplaceAll(string(mutated), "|", "/"))
 }
 
@@ -724,7 +759,8 @@ func c07Gen(r *Rng, tier string) []string {
 			mut = "opt:" + r.Pick([]string{"created", "verificationMethod", "proofPurpose", "domain", "challenge", "domain-arr", "domain-arr",
 				"challenge-arr", "created-arr", "proofPurpose-arr", "verificationMethod-arr", "domain-num", "challenge-num", "domain-obj", "challenge-obj"})
 		case x < 19:
-			mut = r.Pick([]string{"delproof", "proof2:foreign", "proof2:foreign", "proof2:altered", "addtype:top", "addtype:subject", "addtype:nested"})
+			mut = r.Pick([]string{"delproof", "proof2:foreign", "proof2:foreign", "proof2:altered", "addtype:top", "addtype:subject", "addtype:nested",
+				"addcase:Issuer", "addcase:Issuer", "addcase:ID", "addcase:Id", "addcase:IssuanceDate", "addcase:Type"})
 		default:
 			mut = "sig"
 		}
